@@ -107,14 +107,15 @@ CallRegister(k) == /\ cpc[k] = "reg"
 \* returned to Call (which retires the call) and is NOT a writer failure
 CallWCheck(k) == /\ cpc[k] = "wcheck" /\ CS(st)
   /\ cpc' = [cpc EXCEPT ![k] = IF ShuttingDown(st) THEN "retireW" ELSE "inwriter"]
-  /\ UNCHANGED <<ready, outcome, ctxDone, sent, npc, rdpc, rdarg, unread, dpc, darg, hpc, released, hctx, rp, isnotif, canpc, clpc, wtpc, wire>>
+  /\ sent' = (IF ShuttingDown(st) THEN sent ELSE sent \cup {k})   \* handed to the Writer: the peer may answer from now on
+  /\ UNCHANGED <<ready, outcome, ctxDone, npc, rdpc, rdarg, unread, dpc, darg, hpc, released, hctx, rp, isnotif, canpc, clpc, wtpc, wire>>
 
 \* seam: Writer.Write returns.  "ctx": the write was abandoned because the caller's context ended
 CallWriterReturn(k, o) == /\ cpc[k] = "inwriter" /\ (o \in Outcomes \/ (o = "ctx" /\ ctxDone[k]))
-  /\ (CASE o = "ok" -> cpc' = [cpc EXCEPT ![k] = "await"] /\ sent' = sent \cup {k} /\ wire' = Append(wire, <<"call", k>>)
-        [] o = "broken" -> cpc' = [cpc EXCEPT ![k] = "wfail"] /\ UNCHANGED <<sent, wire>>
-        [] OTHER -> cpc' = [cpc EXCEPT ![k] = "retireW"] /\ UNCHANGED <<sent, wire>>)
-  /\ UNCHANGED <<st, ready, outcome, ctxDone, npc, rdpc, rdarg, unread, dpc, darg, hpc, released, hctx, rp, isnotif, canpc, clpc, wtpc, transportClosed>>
+  /\ (CASE o = "ok" -> cpc' = [cpc EXCEPT ![k] = "await"] /\ wire' = Append(wire, <<"call", k>>)
+        [] o = "broken" -> cpc' = [cpc EXCEPT ![k] = "wfail"] /\ UNCHANGED <<wire>>
+        [] OTHER -> cpc' = [cpc EXCEPT ![k] = "retireW"] /\ UNCHANGED <<wire>>)
+  /\ UNCHANGED <<st, sent, ready, outcome, ctxDone, npc, rdpc, rdarg, unread, dpc, darg, hpc, released, hctx, rp, isnotif, canpc, clpc, wtpc, transportClosed>>
 
 \* CS [write]: first writer failure: remember it and cancel every in-flight incoming request
 CallWFail(k) == /\ cpc[k] = "wfail" /\ CS(SetWriteErr(st))
@@ -237,11 +238,14 @@ ReaderExit == /\ rdpc = "exit"
 
 -----------------------------------------------------------------------------
 \* canceller goroutine:  CS [Cancel]: look the request up; cancel its context outside the lock
+\* (the id is looked up at that moment: the request holding it now is the one cancelled; canpc[c]
+\* then holds that request until its context has been cancelled)
 CancelLookup(c) == /\ canpc[c] = "lookup" /\ CS(st)
-  /\ canpc' = [canpc EXCEPT ![c] = IF CancelOf[c] \in st.inById THEN "cancel" ELSE "done"]
+  /\ canpc' = [canpc EXCEPT ![c] = IF \E q \in st.inById : WireId(q) = WireId(CancelOf[c])
+                                    THEN CHOOSE q \in st.inById : WireId(q) = WireId(CancelOf[c]) ELSE "done"]
   /\ UNCHANGED <<cpc, ready, outcome, ctxDone, sent, npc, rdpc, rdarg, unread, dpc, darg, hpc, released, hctx, rp, isnotif, clpc, wtpc, wire>>
-CancelCtx(c) == /\ canpc[c] = "cancel" /\ canpc' = [canpc EXCEPT ![c] = "done"]
-  /\ hctx' = [hctx EXCEPT ![CancelOf[c]] = "cancelled"]
+CancelCtx(c) == /\ canpc[c] \in Reqs /\ canpc' = [canpc EXCEPT ![c] = "done"]
+  /\ hctx' = [hctx EXCEPT ![canpc[c]] = IF @ = "live" THEN "cancelled" ELSE @]
   /\ UNCHANGED <<st, cpc, ready, outcome, ctxDone, sent, npc, rdpc, rdarg, unread, dpc, darg, hpc, released, rp, isnotif, clpc, wtpc, transportClosed, wire>>
 
 -----------------------------------------------------------------------------
@@ -340,7 +344,7 @@ CountsNonNegative == st.incoming >= 0 /\ st.outNotif >= 0
 CompleteOnce == [][\A k \in Callers : ready[k] => (ready'[k] /\ outcome'[k] = outcome[k])]_vars
 DoneMeansDrained == st.done => \A k \in Callers : (cpc[k] \in {"wcheck", "inwriter", "wfail", "retireW", "await", "retireC"}) => ready[k]
 RefusedNeverWritten == \A k \in Callers : (outcome[k] = "closed") => \A i \in DOMAIN wire : wire[i] # <<"call", k>>
-OwnResponse == \A k \in Callers : outcome[k] = "response" => \E i \in DOMAIN wire : wire[i] = <<"call", k>>
+OwnResponse == \A k \in Callers : outcome[k] = "response" => cpc[k] \notin {"idle", "reg", "wcheck"}
 \* C02
 Count(x) == Cardinality({i \in DOMAIN wire : wire[i] = x})
 AnsweredAtMostOnce == \A r \in Reqs : Count(<<"resp", r>>) <= 1
@@ -355,7 +359,7 @@ WorkDecreasesUnderShutdown ==
 \* C04: a request's context is cancelled only for a stated cause
 OnlyMatchingCancelled == \A r \in Reqs : hctx[r] = "cancelled" =>
      \/ st.readErr \/ st.writeErr
-     \/ \E c \in DOMAIN CancelOf : CancelOf[c] = r /\ canpc[c] = "done"
+     \/ \E c \in DOMAIN CancelOf : WireId(CancelOf[c]) = WireId(r) /\ canpc[c] = "done"
 
 \* termination shape: when nothing in the SDK can move and the environment owes nothing,
 \* every Close/Wait has returned, every call has returned, the dispatcher is off
